@@ -293,12 +293,8 @@ class Program:
         mm = re.match(r'^(?:[\w]+::)*<impl at ([^:]+):(\d+):(\d+): \d+:\d+>::(.*)$', name)
         if mm:
             file, line, col, rest = mm.group(1), int(mm.group(2)), int(mm.group(3)), mm.group(4)
-            if file.startswith('/'):
-                return
-            ls, li = self._src_line(file, line)
-            if ls is None:
-                return
-            srcl = ls[li]
+            ls, li = (None, None) if file.startswith('/') else self._src_line(file, line)
+            srcl = ls[li] if ls is not None else ''
             im = re.match(r'\s*(?:unsafe\s+)?impl(?:<.*?>)?\s+(?:(!?[\w:]+(?:<.*>)?)\s+for\s+)?([\w:]+)', srcl)
             ty = tr = None
             if im and srcl.lstrip().startswith(('impl', 'unsafe impl')):
@@ -329,7 +325,7 @@ class Program:
                     tr = last_seg(strip_angle(tr).strip())
                     if targs:
                         self.alias.setdefault(f'<{ty} as {tr}<{", ".join(targs)}>>::{rest}', fn)
-                        return
+                        ty = None
             elif '#[derive' in srcl or 'derive(' in srcl:
                 # derived impl: the trait name sits at the column, the type follows the attributes
                 tr = re.match(r'(\w+)', srcl[col - 1:]).group(1)
